@@ -477,8 +477,15 @@ func GetTOASTVerboseInfo(toastRelID uint32, data []byte) *TOASTVerboseInfo {
 		info.AverageChunkSize = float64(info.TotalSize) / float64(info.TotalChunks)
 	}
 
-	// Analyze each value
-	for chunkID, chunks := range valueChunks {
+	// Analyze each value, in value id order: map iteration order is random, the listing must not be
+	chunkIDs := make([]uint32, 0, len(valueChunks))
+	for chunkID := range valueChunks {
+		chunkIDs = append(chunkIDs, chunkID)
+	}
+	sort.Slice(chunkIDs, func(i, j int) bool { return chunkIDs[i] < chunkIDs[j] })
+
+	for _, chunkID := range chunkIDs {
+		chunks := valueChunks[chunkID]
 		numChunks := len(chunks)
 		
 		// Update max chunks per value
